@@ -32,6 +32,7 @@ type pingCase struct {
 	RawFrames   []bool `json:"raw_frames,omitempty"`
 	Sizes       []int  `json:"sizes"`
 	BufferedHandler bool `json:"buffered_handler,omitempty"` // the handler reads its request through a 4 KiB buffered reader (as grpc-go or a proxy does) instead of exactly the bytes it needs
+	MiddlewareFlushError bool `json:"middleware_flush_error,omitempty"` // that middleware offers FlushError() error (and Unwrap) instead of Flush()
 	Middleware  bool   `json:"middleware,omitempty"`       // the transcoder sits behind a middleware whose ResponseWriter buffers the body and offers both Flush and Unwrap
 }
 
@@ -62,6 +63,7 @@ func TestC16(t *testing.T) {
 		}
 		c.BufferedHandler = rapid.IntRange(0, 2).Draw(t, "buffered_handler") == 0
 		c.Middleware = rapid.IntRange(0, 3).Draw(t, "middleware") == 0
+		c.MiddlewareFlushError = c.Middleware && rapid.Bool().Draw(t, "middleware_flush_error")
 		judge(t, "C16", c, checkC16(c))
 	})
 }
@@ -103,6 +105,16 @@ func (b *bufferingMiddleware) finish() {
 		b.buf = b.buf[:0]
 	}
 }
+
+// flushErrorMiddleware: the same middleware for writers that follow the newer convention - no Flush(),
+// but FlushError() error, found through http.ResponseController or an Unwrap chain.
+type flushErrorMiddleware struct{ m *bufferingMiddleware }
+
+func (f flushErrorMiddleware) Header() http.Header         { return f.m.Header() }
+func (f flushErrorMiddleware) WriteHeader(code int)        { f.m.WriteHeader(code) }
+func (f flushErrorMiddleware) Write(p []byte) (int, error) { return f.m.Write(p) }
+func (f flushErrorMiddleware) FlushError() error           { f.m.Flush(); return nil }
+func (f flushErrorMiddleware) Unwrap() http.ResponseWriter { return f.m.inner }
 
 var pingWatchdog = func() time.Duration {
 	if v := os.Getenv("VERIF_PING_WATCHDOG"); v != "" {
@@ -219,9 +231,7 @@ func runPing(c *pingCase) pingResult {
 			}
 			// a streaming handler flushes after each message (for the transcoder's writer this
 			// is a no-op: it flushes at message boundaries itself)
-			if fl, ok := w.(http.Flusher); ok {
-				fl.Flush()
-			}
+			_ = http.NewResponseController(w).Flush() // finds Flush, FlushError and Unwrap chains, like a gRPC or Connect server does
 		}
 		switch {
 		case strings.HasPrefix(ct, "application/grpc-web"):
@@ -275,7 +285,11 @@ func runPing(c *pingCase) pingResult {
 	}
 	var clientWriter http.ResponseWriter = rec
 	if c.Middleware {
-		clientWriter = &bufferingMiddleware{inner: rec}
+		mw := &bufferingMiddleware{inner: rec}
+		clientWriter = mw
+		if c.MiddlewareFlushError {
+			clientWriter = flushErrorMiddleware{mw}
+		}
 	}
 	// client: strict alternation
 	clientDone := make(chan struct{})
@@ -320,8 +334,11 @@ func runPing(c *pingCase) pingResult {
 			}
 		}()
 		tr.ServeHTTP(clientWriter, req)
-		if mw, ok := clientWriter.(*bufferingMiddleware); ok {
+		switch mw := clientWriter.(type) {
+		case *bufferingMiddleware:
 			mw.finish() // a middleware writes out what it still holds when the handler it wraps has returned
+		case flushErrorMiddleware:
+			mw.m.finish()
 		}
 	}()
 	// A strict ping-pong in memory either makes a step within microseconds or never again: the
